@@ -28,7 +28,7 @@ theorem eval_scaled (E : Elements) {n : Rat} {f g : Formula} (h : Scaled n f g) 
   | group i hs _ ih => intro z; simp only [Formula.eval, hs, ih]; ring
 
 /-- two well-formed formulas with the same expansion give the same `compoundData` -/
-theorem parse_eval_invariant (v : Variant) (T : Tables) (l : Locale) {f g : Formula} (hf : f.WF (elementsOf T)) (hg : g.WF (elementsOf T))
+theorem parse_eval_invariant (v : Variant) (T : Tables) (l : Locale) {f g : Formula} (hf : WFV v (elementsOf T) f) (hg : WFV v (elementsOf T) g)
     (he : ∀ z, f.eval (elementsOf T) z = g.eval (elementsOf T) z) :
     (compoundParser v T l (some f.print.toList)).result = (compoundParser v T l (some g.print.toList)).result := by
   obtain ⟨ca, k, h1, h2⟩ := parseSimple_ok T (f.printL.length + 1) f hf (by omega)
